@@ -540,7 +540,7 @@ def callMethodS (ev : EvS) (Ca : Nat) (bad : Err) (r : ObjS) (f : Fn) (args : Li
         let n := strs.length
         -- the hidden `Context()` parameter: the call context itself is written and returned
         let F ← childCtx Ca
-        match (if xs.length < n + 1 then e else none) with
+        match (if n = 0 || xs.length < n + 1 then e else none) with
         | some er => fail er
         | none =>
         if n = 0 then do publishNamed F (bindPos 1 xs); pure (.ctx F)
